@@ -447,6 +447,45 @@ def modifyV (qv : JV → JV) : List Path → JV → Option JV
       | none => none
       | some w' => modifyV qv ps w'
 
+/-- `_modify(paths; q)` in full.  `q x f = none`: the update query is `empty` at this path — the path
+    is appended to `$d`; at the end all collected paths are deleted with `_delpaths` (compileModify). -/
+def modifyFullAux (q : T → Nat → Option (T × Nat)) :
+    List Path → T × List Nat × Nat → List Path → Option ((T × List Nat × Nat) × List Path)
+  | [], st, d => some (st, d)
+  | p :: ps, st, d =>
+    match getpRelease st.2.1 p st.1 with
+    | none => none
+    | some (x, A1) =>
+      match q x st.2.2 with
+      | none => modifyFullAux q ps (st.1, A1, st.2.2) (d ++ [p])
+      | some (n, f1) =>
+        match upd A1 f1 p st.1 n with
+        | none => none
+        | some (v', A', f', log) => modifyFullAux q ps (applyLog log v', A', f') d
+
+def modifyFull (q : T → Nat → Option (T × Nat)) (ps : List Path) (v : T) (f : Nat) : Option T :=
+  match modifyFullAux q ps (v, [], f) [] with
+  | none => none
+  | some ((v', A', f'), d) => (delpathsT A' f' d v').map (·.1)
+
+/-- the defining reduction of `|=` on values (jq 1.7 `_modify`): first output of the update query,
+    paths where it is empty are collected and deleted at the end, against the updated value -/
+def modifyVAux (qv : JV → Option JV) : List Path → JV → List Path → Option (JV × List Path)
+  | [], w, d => some (w, d)
+  | p :: ps, w, d =>
+    match getpath p w with
+    | none => none
+    | some x =>
+      match qv x with
+      | none => modifyVAux qv ps w (d ++ [p])
+      | some y =>
+        match setpath p w y with
+        | none => none
+        | some w' => modifyVAux qv ps w' d
+
+def modifyVFull (qv : JV → Option JV) (ps : List Path) (w : JV) : Option JV :=
+  (modifyVAux qv ps w []).map fun r => delpaths r.2 r.1
+
 /-- The exact observable state after a sequence of in-place writes: a cell shows its LAST written
     content, and so do the cells referenced from that content (also those written EARLIER: a payload is
     a snapshot that may be stale).  Cyclic stores (D4) make this non-terminating, hence the fuel.
